@@ -3,6 +3,7 @@ namespace MaddyVerif.Expect.FuncSkelC09
 
 /-- (declaration, fingerprint of its normalised text): comments, layout, local names and log/trace statements do not count -/
 def funcs : List (String × String) := [
+  ("internal/msgpipeline/msgpipeline.go:MsgPipeline.Start", "2567ac34fcd9d9e9"),
   ("internal/msgpipeline/msgpipeline.go:msgpipelineDelivery.AddRcpt", "4a921086f6367c2d"),
   ("internal/msgpipeline/msgpipeline.go:msgpipelineDelivery.BodyNonAtomic", "9ef190be8c536e0f"),
   ("internal/msgpipeline/msgpipeline.go:statusCollector.SetStatus", "ce68335872bcfb76"),
